@@ -862,6 +862,129 @@ func main() {
 		def("accept_registers_listener_before_knock_goroutine", "bool", coqBool(pListen < pGo), "grpc_broker.go Accept (mux): muxer.Listener(id) precedes `go listenForKnocks`")
 	}
 
+	// ---- what wakes the host's blocking waits when the plugin dies (C03)
+	if start != nil {
+		hasDone, hasTimeout, hasLine := false, false, false
+		ast.Inspect(start, func(n ast.Node) bool {
+			ss, ok := n.(*ast.SelectStmt)
+			if !ok {
+				return true
+			}
+			var d, t, l bool
+			for _, c := range ss.Body.List {
+				cc := c.(*ast.CommClause)
+				if cc.Comm == nil {
+					continue
+				}
+				var rx ast.Expr
+				switch x := cc.Comm.(type) {
+				case *ast.ExprStmt:
+					rx = x.X
+				case *ast.AssignStmt:
+					if len(x.Rhs) == 1 {
+						rx = x.Rhs[0]
+					}
+				}
+				switch exprString(rx) {
+				case "<-c.doneCtx.Done()":
+					d = true
+				case "<-timeout":
+					t = true
+				case "<-linesCh":
+					l = true
+				}
+			}
+			if l {
+				hasDone, hasTimeout, hasLine = d, t, l
+			}
+			return true
+		})
+		timeoutFromConfig := false
+		waitCancels, waitSetsExited, waitWaits, linesClose := false, false, false, false
+		ast.Inspect(start, func(n ast.Node) bool {
+			if as, ok := n.(*ast.AssignStmt); ok && len(as.Lhs) == 1 && exprString(as.Lhs[0]) == "timeout" && exprString(as.Rhs[0]) == "time.After(c.config.StartTimeout)" {
+				timeoutFromConfig = true
+			}
+			gs, ok := n.(*ast.GoStmt)
+			if !ok {
+				return true
+			}
+			fl, ok := gs.Call.Fun.(*ast.FuncLit)
+			if !ok {
+				return true
+			}
+			var cancels, exited, waits, closes bool
+			ast.Inspect(fl, func(m ast.Node) bool {
+				switch x := m.(type) {
+				case *ast.DeferStmt:
+					if exprString(x.Call) == "c.ctxCancel()" {
+						cancels = true
+					}
+					if exprString(x.Call) == "close(linesCh)" {
+						closes = true
+					}
+				case *ast.AssignStmt:
+					if len(x.Lhs) == 1 && exprString(x.Lhs[0]) == "c.exited" && exprString(x.Rhs[0]) == "true" {
+						exited = true
+					}
+				case *ast.CallExpr:
+					if strings.HasPrefix(exprString(x), "runner.Wait(") {
+						waits = true
+					}
+				}
+				return true
+			})
+			if waits {
+				waitCancels, waitSetsExited, waitWaits = cancels, exited, true
+			}
+			if closes {
+				linesClose = true
+			}
+			return true
+		})
+		if !hasLine || !waitWaits {
+			fail("Client.Start: the select on linesCh or the goroutine calling runner.Wait was not found")
+		}
+		def("crash_start_selects_done", "bool", coqBool(hasDone), "client.go Start: the wait for the handshake line also selects on c.doneCtx.Done()")
+		def("crash_start_selects_timeout", "bool", coqBool(hasTimeout && timeoutFromConfig), "client.go Start: ... and on time.After(c.config.StartTimeout)")
+		def("crash_lines_closed_at_eof", "bool", coqBool(linesClose), "client.go Start: the scanner goroutine closes linesCh when stdout ends")
+		def("crash_wait_cancels_ctx", "bool", coqBool(waitCancels), "client.go Start: the goroutine that waits on the process defers c.ctxCancel()")
+		def("crash_wait_sets_exited", "bool", coqBool(waitSetsExited), "client.go Start: ... and sets c.exited = true")
+	}
+	{
+		gc := load(*repo, "grpc_client.go")
+		passes := false
+		if fd := findFunc(gc, "GRPCClient", "Dispense"); fd != nil {
+			ast.Inspect(fd, func(n ast.Node) bool {
+				if ce, ok := n.(*ast.CallExpr); ok && strings.HasPrefix(exprString(ce), "p.GRPCClient(c.doneCtx,") {
+					passes = true
+				}
+				return true
+			})
+		} else {
+			fail("GRPCClient.Dispense not found")
+		}
+		ctor := false
+		if fd := findFunc(gc, "", "newGRPCClient"); fd != nil {
+			ast.Inspect(fd, func(n ast.Node) bool {
+				if kv, ok := n.(*ast.KeyValueExpr); ok && exprString(kv.Key) == "doneCtx" && exprString(kv.Value) == "doneCtx" {
+					ctor = true
+				}
+				return true
+			})
+		}
+		callSite := false
+		if cl := findFunc(client, "Client", "Client"); cl != nil {
+			ast.Inspect(cl, func(n ast.Node) bool {
+				if ce, ok := n.(*ast.CallExpr); ok && exprString(ce) == "newGRPCClient(c.doneCtx,c)" {
+					callSite = true
+				}
+				return true
+			})
+		}
+		def("crash_grpc_plugins_get_done_ctx", "bool", coqBool(passes && ctor && callSite), "client.go / grpc_client.go: the client's doneCtx reaches GRPCPlugin.GRPCClient through newGRPCClient and Dispense")
+	}
+
 	// ---- lock discipline, close sites, id allocation (C20)
 	{
 		la := runLockAnalysis(*repo, lockFiles)
